@@ -72,6 +72,14 @@ def full_case():
             "tile": [2, 3, 1], "kvec": [3.0e6, -2.5e6, 0.0], "full_eps": True, "full_mu": True}
 
 
+def full_stretched_case():
+    """fully anisotropic medium on a stretched grid (width-weighted co-location averages) whose first and last widths agree along the tiled axes"""
+    u = 2.0 ** -23
+    cum = lambda w: [0.0] + [float(v) * u for v in np.cumsum(w)]
+    return {"shape": [3, 2, 2], "bt": {f"{s_}_{a}": "periodic" for s_ in ("min", "max") for a in "xyz"}, "ncomp": 1, "seed": 22, "steps": 2, "back": 0,
+            "tile": [2, 2, 1], "edges": [cum([1.0, 1.5, 1.0]), cum([2.0, 2.0]), cum([0.75, 1.5])], "full_eps": True, "full_mu": True}
+
+
 def thin_cases():
     """one-cell-thick Bloch axes with a non-zero wave-vector component (the collapsed-axis idiom for 2-D runs)"""
     def bt(bloch_axes):
@@ -81,7 +89,7 @@ def thin_cases():
 
 
 def gen_cases(ctx):
-    return [seam_case(), full_case()] + thin_cases() + [gen_case(ctx.rng, ctx.quick, i) for i in range(ctx.pick(5, 30))]
+    return [seam_case(), full_case(), full_stretched_case()] + thin_cases() + [gen_case(ctx.rng, ctx.quick, i) for i in range(ctx.pick(5, 30))]
 
 
 def run_cases(ctx, cases):
